@@ -12,6 +12,7 @@ MENUS = {
         ('dupsym', ['tA', 'tB', 'tA2', 'ka', 'cb', 'ka_dupB', 'a_dup', 'empty', 'nonstr', 'xb_wrongtype', 'ka2', 'bad_dim'], 5),
         ('noref', ['tA', 'tM', 'tMpA', 'p', 'q', 'ka', 'ppa', 'ppka', 'qpa', 'p_dup'], 6),
         ('baddefs', ['tA', 'tB', 'tAB', 'ka', 'cb', 'bad_dim', 'bad_cancel', 'arity', 'wrongorder', 'onbase', 'kacb', 'm_ka_cb'], 5),
+        ('numterms', ['tA', 'ka', 'milli_a', 'kilo2_a', 'ha', 'd_ka_ha'], 6),
     ],
     'thorough': [
         ('types', ['tA', 'tB', 'tM', 'tAB', 'tA2', 'tApB', 'tBi', 'tMpA', 'tA1', 'tA2_dup2', 'tA2_dup', 'tA_dupsym'], 6),
